@@ -294,20 +294,34 @@ func (e *Exec) doAppend(fr *Frame, st *State, x *ssa.Call) Value {
 	if !ok {
 		return e.havocValue(x.Type(), st.pc, "append")
 	}
-	var tl *Term // number of appended elements
-	var t *Term
-	strSrc := false
-	if isString(args[1].Type()) {
-		strSrc = true
-		t = e.term(fr, st, args[1])
-		tl = App(SInt, "slen", t)
-	} else {
-		t = e.term(fr, st, args[1])
-		tl = App(SInt, "sl-len", t)
-	}
 	et := slt.Elem()
 	es := sortOf(et)
-	_, elemStruct := et.Underlying().(*types.Struct)
+	if _, elemStruct := et.Underlying().(*types.Struct); elemStruct {
+		tl := e.fresh(SInt, "applen")
+		if isString(args[1].Type()) {
+			e.assume(st.pc, Eq(tl, App(SInt, "slen", e.term(fr, st, args[1]))))
+		} else {
+			e.assume(st.pc, Eq(tl, App(SInt, "sl-len", e.term(fr, st, args[1]))))
+		}
+		return e.appendAbstract(st, x, s, es, tl, nil, true)
+	}
+	if isString(args[1].Type()) {
+		t := e.term(fr, st, args[1])
+		return e.appendAbstract(st, x, s, es, App(SInt, "slen", t), func(h *Term, j string) string {
+			return fmt.Sprintf("(sat %s %s)", t.S, j)
+		}, false)
+	}
+	t := e.term(fr, st, args[1])
+	toff := App(SInt, "sl-off", t)
+	return e.appendAbstract(st, x, s, es, App(SInt, "sl-len", t), func(h *Term, j string) string {
+		return fmt.Sprintf("(select (select %s %s) (+ %s %s))", h.S, App(SInt, "sl-id", t).S, toff.S, j)
+	}, false)
+}
+
+// appendAbstract models append(s, <tl elements>) exactly (in place when the
+// capacity allows, else a fresh array); src gives the k-th appended element
+// (k from 0) as a term over the heap before the append. nil src: contents unknown.
+func (e *Exec) appendAbstract(st *State, x ssa.Instruction, s *Term, es string, tl *Term, src func(h *Term, k string) string, noContents bool) Value {
 	sid, soff, slen, scap := App(SInt, "sl-id", s), App(SInt, "sl-off", s), App(SInt, "sl-len", s), App(SInt, "sl-cap", s)
 	nlen := e.def(SInt, Add(slen, tl))
 	inplace := e.def(SBool, Le(nlen, scap))
@@ -317,32 +331,34 @@ func (e *Exec) doAppend(fr *Frame, st *State, x *ssa.Call) Value {
 	res := Ite(inplace,
 		App(SSl, "mk-sl", sid, soff, nlen, scap),
 		App(SSl, "mk-sl", fid, IntLit(0), nlen, ncap))
-	// appending nothing to nil stays nil-ish: id may be 0 only if len 0
-	if elemStruct || strSrc {
-		if !elemStruct {
-			comp := "A_" + sortKey(es)
-			st.heap[comp] = sentinel
-		}
+	if noContents {
 		return e.def(SSl, res)
 	}
 	comp := "A_" + sortKey(es)
 	if e.Opt.NoArgWrite && es == SObj {
 		// append in place writes into the backing array of s: it must be this activation's own
-		e.oblige(st, "frame:append", render(x, 0), Implies(And(inplace, Lt(IntLit(0), tl)), Le(e.heapRead(e.entry, "$alloc", SInt), sid)), e.posOf(x), sid, slen, scap)
+		var rv ssa.Value
+		if v, ok := x.(ssa.Value); ok {
+			rv = v
+		}
+		e.oblige(st, "frame:append", render(rv, 0), Implies(And(inplace, Lt(IntLit(0), tl)), Le(e.heapRead(e.entry, "$alloc", SInt), sid)), e.posOf(x), sid, slen, scap)
+	}
+	if src == nil {
+		st.heap[comp] = sentinel
+		return e.def(SSl, res)
 	}
 	h := e.heapRead(st, comp, ArrSort(ArrSort(es)))
 	old := Select(h, sid)
-	src := Select(h, App(SInt, "sl-id", t))
-	toff := App(SInt, "sl-off", t)
 	// new contents as a function of the index j
-	// in place: j in [soff+slen, soff+nlen) comes from t
 	inplBody := func(j string) string {
-		return fmt.Sprintf("(ite (and (<= (+ %s %s) %s) (< %s (+ %s %s))) (select %s (+ %s (- %s (+ %s %s)))) (select %s %s))",
-			soff.S, slen.S, j, j, soff.S, nlen.S, src.S, toff.S, j, soff.S, slen.S, old.S, j)
+		k := fmt.Sprintf("(- %s (+ %s %s))", j, soff.S, slen.S)
+		return fmt.Sprintf("(ite (and (<= (+ %s %s) %s) (< %s (+ %s %s))) %s (select %s %s))",
+			soff.S, slen.S, j, j, soff.S, nlen.S, src(h, k), old.S, j)
 	}
 	freshBody := func(j string) string {
-		return fmt.Sprintf("(ite (< %s %s) (select %s (+ %s %s)) (select %s (+ %s (- %s %s))))",
-			j, slen.S, old.S, soff.S, j, src.S, toff.S, j, slen.S)
+		k := fmt.Sprintf("(- %s %s)", j, slen.S)
+		return fmt.Sprintf("(ite (< %s %s) (select %s (+ %s %s)) %s)",
+			j, slen.S, old.S, soff.S, j, src(h, k))
 	}
 	if e.Opt.NoLambda {
 		na := e.fresh(ArrSort(es), "apparr")
@@ -481,6 +497,26 @@ func (e *Exec) knownCall(fr *Frame, st *State, x *ssa.Call, callee *ssa.Function
 		full = callee.String()
 	}
 	switch full {
+	case "strconv.AppendInt", "strconv.AppendUint":
+		// assumed contract: b ++ the digits of v in the given base (abstract digit functions ndig/dig)
+		b := e.term(fr, st, x.Call.Args[0])
+		v := e.term(fr, st, x.Call.Args[1])
+		base := e.term(fr, st, x.Call.Args[2])
+		e.declDigits()
+		n := App(SInt, "ndig", v, base)
+		return e.appendAbstract(st, x, b, SInt, n, func(h *Term, k string) string {
+			return fmt.Sprintf("(dig %s %s %s)", v.S, base.S, k)
+		}, false), true, true
+	case "(*math/big.Int).Append":
+		// assumed contract: b ++ the digits of the big integer (identified by its reference) in the given base
+		recv := e.term(fr, st, x.Call.Args[0])
+		b := e.term(fr, st, x.Call.Args[1])
+		base := e.term(fr, st, x.Call.Args[2])
+		e.declDigits()
+		n := App(SInt, "ndigbig", recv, base)
+		return e.appendAbstract(st, x, b, SInt, n, func(h *Term, k string) string {
+			return fmt.Sprintf("(digbig %s %s %s)", recv.S, base.S, k)
+		}, false), true, true
 	case "strings.IndexByte", "strings.LastIndexByte", "strings.IndexRune", "strings.Index", "strings.LastIndex", "strings.IndexAny", "bytes.IndexByte":
 		r := e.fresh(SInt, "idx")
 		var ln *Term
@@ -503,7 +539,7 @@ func (e *Exec) knownCall(fr *Frame, st *State, x *ssa.Call, callee *ssa.Function
 		} else {
 			e.assume(st.pc, Le(IntLit(0), App(SInt, "slen", r)))
 			// ASCII-only strings keep their length; in general not
-			e.assume(st.pc, Implies(Eq(App(SInt, "slen", a), IntLit(0)), Eq(App(SInt, "slen", r), IntLit(0))))
+			e.assume(st.pc, Eq(Eq(App(SInt, "slen", a), IntLit(0)), Eq(App(SInt, "slen", r), IntLit(0))))
 		}
 		return r, true, true
 	}
@@ -556,4 +592,35 @@ func sortedBlocks(m map[*ssa.BasicBlock]bool) []*ssa.BasicBlock {
 	}
 	sort.Slice(bs, func(i, j int) bool { return bs[i].Index < bs[j].Index })
 	return bs
+}
+
+func (e *Exec) declDigits() {
+	if e.declared["ndig"] {
+		return
+	}
+	e.declared["ndig"] = true
+	e.emit("(declare-fun ndig (Int Int) Int)")
+	e.emit("(declare-fun dig (Int Int Int) Int)")
+	e.emit("(declare-fun ndigbig (Int Int) Int)")
+	e.emit("(declare-fun digbig (Int Int Int) Int)")
+	e.emit("(assert (forall ((v Int) (b Int)) (! (and (<= 1 (ndig v b)) (<= (ndig v b) 65)) :pattern ((ndig v b)))))")
+	e.emit("(assert (forall ((v Int) (b Int)) (! (and (<= 1 (ndigbig v b)) (<= (ndigbig v b) 1000000)) :pattern ((ndigbig v b)))))")
+
+}
+
+func (e *Exec) registerDigitGhosts() {
+	mk := func(name string, n int) {
+		e.ghostFuncs[name] = func(en *evalEnv, a []ev) ev {
+			e.declDigits()
+			var ts []*Term
+			for i := 0; i < n; i++ {
+				ts = append(ts, a[i].v.(*Term))
+			}
+			return ev{App(SInt, name, ts...), nil}
+		}
+	}
+	mk("ndig", 2)
+	mk("dig", 3)
+	mk("ndigbig", 2)
+	mk("digbig", 3)
 }
